@@ -6,12 +6,14 @@ import C06
 
 def run(ctx):
     ctx.trusted_base += [
+        "tools/gofacts order.go: the calls of Scheduler.onDisconnect in source order, regenerated into Gen/C13.lean (source_disconnect_flag_first)",
         "Model/Life.lean + Model/Session.lean: release closes every pool connection the session holds; the destination cache never exceeds its maximum (eviction before every store)",
         "lifecycle harness harness/tcphandlers/verif_life_test.go (see C06; the real tcphandlers.NewTCPHandler is what runs the session): after every op the open pool connections as the fake pools see them, the number of Proxy.Run / Pipe.Run goroutines, scheduler status, miner list; when a history is over the synctest bubble reports goroutines that are still blocked (a leak)",
         "monitor Driver/LifeMon.lean: at most one Proxy.Run and one Pipe.Run; open pool connections within the configured maximum at every quiescence point; when the session has ended nothing is open, nothing runs, the miner is not listed and every queued task was told",
         "the handler's own clean-up (delete from the miner list, close the miner's connection) is executed from tcphandlers/tcp.go, not replayed",
     ]
     ctx.assumptions += ["idle time-outs are exercised by the 20 s setting of the generator; the 10 min default is not waited for", "the bound is observed at quiescence points (during a switch one more connection exists)"]
+    L.regen(ctx, ["C13"])
     L.prove(ctx)
     if not L.build_driver(ctx):
         return
